@@ -199,6 +199,16 @@ def gen_plan(seed, tier="quick"):
                         "return_after_us": r.choice([30000, 120000, 400000])}
         knobs["reconnect_interval"] = 0.05
         plan["settle_s"] = 1.2
+    b = plans.rng_for(seed, PROP + "-status")
+    if driver == "tridonic" and b.random() < 0.2:
+        # bus status reports of the gateway (not a frame, not an answer): also between a forward frame
+        # and its answer, between the two frames of a configuration command, after EnableDeviceType
+        bs = []
+        for _ in range(b.randrange(1, 4)):
+            base = b.choice(plan["traffic"])["t_us"] if plan["traffic"] and b.random() < 0.8 else b.randrange(0, span + 1)
+            bs.append([base + b.choice([3000, 18000, 20000, 22000, 26000, 30000, 45000, 100000, 180000]),
+                       b.choice([1, 2, 4, 4, 5, 6, 6, 0, 7])])
+        plan["bus_status"] = sorted(bs)
     # in some runs nobody is subscribed from the start: a subscriber may join in
     # the middle of a transaction the watcher is already tracking
     plan["permanent"] = r.random() < 0.6
@@ -278,12 +288,14 @@ def judge(rr, ctx):
         V("connect-failed", repr(rr.connect_error))
         return out, {}
     info = {"expected": 0}
+    alt = None
     imap = getattr(rr.driver, "_verif_inst_map", None) or rr.driver.dev_inst_map
     end_us = rr.world.now_us()
     if drv == "tridonic":
         # one watcher life per connection: what was pending or remembered when the gateway
         # was found gone is dropped with it (the watch task is cancelled, no report)
         emissions, ambiguous = [], False
+        emissions_alt = []
         gens = sorted(set(rr.dev.delivered_gens))
         dets = [t for t, _how in rr.dev.detections]
         for gi, g in enumerate(gens):
@@ -304,12 +316,20 @@ def judge(rr, ctx):
             em, amb = buswatch.reference(reports, imap, end_us=seg_end)
             emissions += em
             ambiguous = ambiguous or amb
+            if any(c is not None and c[0] == "status" for _t, c in reports):
+                em2, amb2 = buswatch.reference(reports, imap, end_us=seg_end, status_restarts=True)
+                ambiguous = ambiguous or amb2
+            else:
+                em2 = em
+            emissions_alt += em2
         if rr.dev.losses:
             rr.world.probe("gateway-lost-mid-history")
         if ambiguous:
             rr.world.probe("ambiguous-gap-set-aside")
             return out, {"set_aside": True}
         info["emissions"] = emissions
+        if [(e[0], str(e[1]), e[3]) for e in emissions_alt] != [(e[0], str(e[1]), e[3]) for e in emissions]:
+            alt = emissions_alt
     elif drv == "hasseb":
         emissions = _hasseb_reference(rr)
     else:
@@ -325,6 +345,25 @@ def judge(rr, ctx):
     if getattr(rr.dev, "rx_exceptions", None):
         V("exception-in-data-received", "%s" % (rr.dev.rx_exceptions[:2],),
           site=rr.dev.rx_exceptions[0][2].split("(")[0])
+    subs_out = _judge_subs(ctx, drv, emissions)
+    if subs_out and alt is not None:
+        # a bus status report fell into a watcher timeout: the other reading of "its timeout elapses"
+        other = _judge_subs(ctx, drv, alt)
+        if not other:
+            rr.world.probe("timeout-restarted-by-status-report")
+            subs_out = []
+            info["em"] = alt
+    for v_ in subs_out:
+        V(*v_[:2], site=v_[2])
+    return out, info
+
+
+def _judge_subs(ctx, drv, emissions):
+    res = []
+
+    def V(clause, detail, site=None):
+        res.append((clause, detail, site))
+
     for sub in ctx["subs"]:
         name = sub["name"]
         lo = sub["reg"] if sub["reg"] is not None else -1
@@ -357,7 +396,7 @@ def judge(rr, ctx):
                 V(_clause(exp[i], got[i]), "subscriber %s (%s): report #%d: %s" % (name, site_sub, i, d),
                   site=_site(exp[i]))
                 break
-    return out, info
+    return res
 
 
 def _fmt(e):
